@@ -309,6 +309,24 @@ def run(ctx):
                     ctx.fail("eq_asymmetric", {"a": objs[i][0], "b": objs[j][0]}, f"{eq[i][j]!r} vs {eq[j][i]!r}")
                 if lt[i][j] is True and lt[j][i] is True:
                     ctx.fail("lt_symmetric", {"a": objs[i][0], "b": objs[j][0]}, "a<b and b<a")
+        # ... and not facts about what was MEMOISED on one operand only: fresh twins (unpickled: nothing cached), exactly one of them
+        # hashed / ordered / rendered before the comparison
+        import pickle as _pk
+
+        for i in range(n):
+            for j in range(n):
+                if keys[i] != keys[j] or eq[i][j] is not True:
+                    continue
+                for warm in ("hash", "order", "str"):
+                    a, b = guarded(lambda: _pk.loads(_pk.dumps(objs[i][1]))), guarded(lambda: _pk.loads(_pk.dumps(objs[j][1])))
+                    if is_exc(a) or is_exc(b):
+                        continue
+                    guarded(lambda: hash(a) if warm == "hash" else (a < objs[0][1]) if warm == "order" else str(a))
+                    got = (guarded(lambda: a == b), guarded(lambda: b == a), guarded(lambda: a != b), guarded(lambda: a < b), guarded(lambda: b < a), guarded(lambda: a <= b), guarded(lambda: b >= a))
+                    ctx.count("one_sided_memo_pairs")
+                    if got != (True, True, False, False, False, True, True):
+                        ctx.fail("relation_changed_after_use", {"a": objs[i][0], "b": objs[j][0]}, f"equal URLs, only one operand had its {warm} taken before: (a==b, b==a, a!=b, a<b, b<a, a<=b, b>=a) = {got!r}")
+                        break
         # the relations are facts about the VALUES: after every member has been hashed, ordered, pickled and copied they are the same
         for _, u in objs:
             use_all(u)
